@@ -120,7 +120,8 @@ def check_call(cfg, call):
         return v
     reason, attempts, lk, lexc, lres, nxt = det
     want_reason = "SCHEDULED" if f.deferred else f.reason
-    if reason != want_reason:
+    # without a metric hook the terminal event is not observed: only a deferral is known
+    if reason != want_reason and (cfg["metric"] or f.deferred):
         v.append(("c04.err-stop-reason", f"RetryExhaustedError.stop_reason={reason}, terminal "
                                          f"event says {want_reason}"))
     if attempts != f.n_ops:
@@ -208,7 +209,7 @@ def check_execute(cfg, call, no_retry=False, allowed_fault_sites=("strategy", "c
             want = "ABORTED"
         else:
             want = f.reason
-        if reason != want:
+        if reason != want and (cfg["metric"] or want in ("SCHEDULED", "ABORTED")):
             v.append(("c11.stop-reason", f"outcome.stop_reason={reason}, run stopped because {want}"))
     # description of the final failure
     candidates = []
